@@ -46,8 +46,27 @@ func randText(r *rand.Rand, maxLen int, alphabet string) string {
 	return s
 }
 
+// bigInts: int64 values that float64 cannot represent, the extremes of the range, and the first values outside it
+var bigInts = []string{"9007199254740993", "-9007199254740993", "1234567890123456789", "9223372036854775807",
+	"-9223372036854775808", "9223372036854775808", "-9223372036854775809", "4611686018427387905", "99999999999999999999",
+	"72057594037927937", "999999999999999999", "100000000000000001"}
+
 func randInt(r *rand.Rand) string {
-	switch r.Intn(6) {
+	switch r.Intn(8) {
+	case 6:
+		return pick(r, bigInts)
+	case 7:
+		// a random 16..19 digit value (above 2^53; above the int64 range from 9223372036854775808 on)
+		n := 16 + r.Intn(4)
+		b := make([]byte, n)
+		b[0] = byte('1' + r.Intn(9))
+		for i := 1; i < n; i++ {
+			b[i] = byte('0' + r.Intn(10))
+		}
+		if r.Intn(3) == 0 {
+			return "-" + string(b)
+		}
+		return string(b)
 	case 0:
 		return "0"
 	case 1:
@@ -165,6 +184,16 @@ func genEntry(r *rand.Rand, i int) string {
 	return tag + "|" + svc + m + "|" + genMD(r) + "|" + strings.Join(pl, ",")
 }
 
+var tmoChoices = []int{0, 0, 40, 65, 90, 115}
+
+func schedFor(r *rand.Rand, n, shots int) string {
+	sched := make([]byte, shots)
+	for i := range sched {
+		sched[i] = byte('0' + r.Intn(n))
+	}
+	return string(sched)
+}
+
 func genJSON(r *rand.Rand) string {
 	n := pick(r, []int{1, 1, 2, 4})
 	k := 1 + r.Intn(8)
@@ -172,12 +201,52 @@ func genJSON(r *rand.Rand) string {
 	for i := range es {
 		es[i] = genEntry(r, i)
 	}
-	return fmt.Sprintf("mode=json n=%d sc=%d tmo=%d e=%s", n, pick(r, []int{0, 0, 1, 2}), pick(r, []int{0, 40, 90}), strings.Join(es, ";"))
+	return fmt.Sprintf("mode=json n=%d sc=%d tmo=%d oe=%d e=%s", n, pick(r, []int{0, 0, 1, 2}), pick(r, tmoChoices), r.Intn(2), strings.Join(es, ";"))
+}
+
+// genJSONSched: the same entries fired by hand, entry k by instance sched[k] (exact per-entry trace, connections).
+func genJSONSched(r *rand.Rand) string {
+	n := pick(r, []int{1, 2, 3, 4, 5})
+	k := 1 + r.Intn(10)
+	es := make([]string, k)
+	for i := range es {
+		es[i] = genEntry(r, i)
+	}
+	return fmt.Sprintf("mode=json run=sched n=%d sc=%d tmo=%d oe=%d sched=%s e=%s", n, pick(r, []int{0, 0, 1, 2, 3, 7}), pick(r, tmoChoices),
+		r.Intn(2), schedFor(r, n, k), strings.Join(es, ";"))
+}
+
+// genJSONLong: more entries than the provider's queue and ammo pool hold (128), alternating entries that carry
+// metadata and all fields with entries that carry nothing (keys omitted): anything an ammo object keeps from its
+// previous use shows up as a wrong message or metadata.
+func genJSONLong(r *rand.Rand, sched bool) string {
+	k := 280 + r.Intn(60)
+	es := make([]string, k)
+	for i := range es {
+		tag := "L" + strconv.Itoa(i)
+		switch {
+		case i%2 == 0:
+			u := strconv.Itoa(1 + r.Intn(10))
+			es[i] = tag + "|" + svc + pick(r, []string{"List", "Order"}) + "|x-n:" + strconv.Itoa(i) + ",authorization:Bearer~" + randText(r, 6, "abcdef0123456789") +
+				"|user_id:n." + u + ",token:s." + c20lib.Enc(randText(r, 8, "abcdefghij")) + pick(r, []string{"", ",item_id:n." + strconv.Itoa(r.Intn(5000))})
+		case i%6 == 1:
+			es[i] = tag + "|" + svc + pick(r, []string{"List", "Order", "Hello", "Stats"}) + "||"
+		case i%6 == 3:
+			es[i] = tag + "|" + svc + "Hello||name:s." + c20lib.Enc(randText(r, 5, "klmnop"))
+		default:
+			es[i] = tag + "|" + svc + pick(r, []string{"List", "Order"}) + "|x-only:" + strconv.Itoa(i) + "|"
+		}
+	}
+	n := pick(r, []int{1, 2, 4})
+	if sched {
+		return fmt.Sprintf("mode=json run=sched n=%d sc=%d tmo=0 oe=1 sched=%s e=%s", n, pick(r, []int{0, 2}), schedFor(r, n, k), strings.Join(es, ";"))
+	}
+	return fmt.Sprintf("mode=json n=%d sc=%d tmo=0 oe=1 e=%s", n, pick(r, []int{0, 2}), strings.Join(es, ";"))
 }
 
 // ---------------------------------------------------------------- scenarios
 
-var mdTemplates = []string{"x-user:u-{U}", "x-g:{G}", "x-const:abc", "x-mix:{G}-{U}~end", "X-Up:{U}{U}", "x-plain:Bearer~zzz"}
+var mdTemplates = []string{"x-user:u-{U}", "x-g:{G}", "x-const:abc", "x-mix:{G}-{U}~end", "X-Up:{U}{U}", "x-plain:Bearer~zzz", "payload:p-{U}-{G}"}
 
 func genScen(r *rand.Rand, engine bool) string {
 	n := pick(r, []int{1, 2, 2, 3, 4})
@@ -256,7 +325,7 @@ func genScen(r *rand.Rand, engine bool) string {
 		}
 		scns = append(scns, fmt.Sprintf("s%d:%d:%s", s, 1+r.Intn(3), strings.Join(reqs, "+")))
 	}
-	base := fmt.Sprintf("mode=scen run=%%s n=%d tmo=%d users=%s g=%s calls=%s scns=%s", n, pick(r, []int{0, 0, 40, 90}),
+	base := fmt.Sprintf("mode=scen run=%%s n=%d tmo=%d users=%s g=%s calls=%s scns=%s", n, pick(r, tmoChoices),
 		strings.Join(users, ","), c20lib.Enc(randText(r, 5, "ghijkl-09")), strings.Join(calls, ";"), strings.Join(scns, ";"))
 	if engine {
 		return fmt.Sprintf(base, "engine") + fmt.Sprintf(" shots=%d", 8+r.Intn(30))
@@ -269,17 +338,81 @@ func genScen(r *rand.Rand, engine bool) string {
 	return fmt.Sprintf(base, "sched") + " sched=" + string(sched)
 }
 
+// genScenCollide: names chosen so that "<scenario>_<call>" of one step equals that of another step with different
+// templates (scenario a_b + call c, scenario a + call b_c), the same metadata keys in both, sometimes a metadata key
+// called "payload": a template cache keyed by joined names would hand one step the other's templates.
+func genScenCollide(r *rand.Rand, engine bool) string {
+	word := func() string { return randText(r, 3, "abcdxyz") }
+	a, b, c := word(), word(), word()
+	n := pick(r, []int{1, 1, 2, 3})
+	users := []string{"1", "2", "3"}
+	keys := []string{"x-k"}
+	if r.Intn(2) == 0 {
+		keys = append(keys, "payload")
+	}
+	if r.Intn(2) == 0 {
+		keys = append(keys, "x-u")
+	}
+	mk := func(name, mark string) string {
+		var md []string
+		for _, k := range keys {
+			md = append(md, k+":"+mark+"-"+k+"-{G}-{U}")
+		}
+		return name + "|" + svc + "Hello|" + strings.Join(md, ",") + "|name:s." + mark + ".{U}|u"
+	}
+	calls := []string{mk(c, "one"), mk(b+"_"+c, "two")}
+	scns := []string{fmt.Sprintf("%s_%s:1:%s", a, b, c), fmt.Sprintf("%s:1:%s", a, b+"_"+c)}
+	if r.Intn(2) == 0 {
+		scns[0], scns[1] = scns[1], scns[0]
+	}
+	base := fmt.Sprintf("mode=scen run=%%s n=%d tmo=0 users=%s g=%s calls=%s scns=%s", n, strings.Join(users, ","),
+		c20lib.Enc(randText(r, 4, "ghijkl")), strings.Join(calls, ";"), strings.Join(scns, ";"))
+	if engine {
+		return fmt.Sprintf(base, "engine") + fmt.Sprintf(" shots=%d", 6+r.Intn(10))
+	}
+	return fmt.Sprintf(base, "sched") + " sched=" + schedFor(r, n, 4+r.Intn(5))
+}
+
+// genScenSlow: every call is fast, but the sleeps between the calls of one scenario add up to more than the
+// per-call timeout (3 s, short enough to be exceeded, long enough for a local call on a busy machine): each call
+// must still get its own full timeout.
+func genScenSlow(r *rand.Rand, engine bool) string {
+	sl := 1600 + 100*r.Intn(3)
+	reqs := fmt.Sprintf("h+sleep%d+h+sleep%d+h", sl, sl)
+	if r.Intn(2) == 0 {
+		reqs = fmt.Sprintf("h+sleep%d+g+sleep%d+g", sl+sl/2, sl/2+200)
+	}
+	calls := "h|" + svc + "Hello|x-user:u-{U}|name:s.{U}|u;g|" + svc + "Hello|x-g:{G}|name:s.g|-"
+	base := fmt.Sprintf("mode=scen run=%%s n=%d tmoms=3000 users=1,2 g=%s calls=%s scns=slow:1:%s", 1+r.Intn(2), c20lib.Enc(randText(r, 3, "ghi")), calls, reqs)
+	if engine {
+		return fmt.Sprintf(base, "engine") + " shots=2"
+	}
+	return fmt.Sprintf(base, "sched") + " sched=0"
+}
+
 func gen(r *rand.Rand, tier string) []string {
-	nj, ns, ne := 45, 45, 6
+	nj, njs, nl, ns, nc, ne, nsl := 40, 40, 1, 60, 10, 6, 1
 	if tier == "thorough" {
-		nj, ns, ne = 700, 700, 60
+		nj, njs, nl, ns, nc, ne, nsl = 1500, 1500, 12, 2500, 300, 150, 6
 	}
 	out := []string{"mode=table"}
+	for i := 0; i < nsl; i++ {
+		out = append(out, genScenSlow(r, i%2 == 1))
+	}
+	for i := 0; i < nl; i++ {
+		out = append(out, genJSONLong(r, true), genJSONLong(r, false))
+	}
 	for i := 0; i < nj; i++ {
 		out = append(out, genJSON(r))
 	}
+	for i := 0; i < njs; i++ {
+		out = append(out, genJSONSched(r))
+	}
 	for i := 0; i < ns; i++ {
 		out = append(out, genScen(r, false))
+	}
+	for i := 0; i < nc; i++ {
+		out = append(out, genScenCollide(r, i%5 == 4))
 	}
 	for i := 0; i < ne; i++ {
 		out = append(out, genScen(r, true))
